@@ -384,6 +384,51 @@ int main(int argc, char **argv)
             }
             delete px;
           }
+          // CZAR grids of the eABF consumer with the bias not applied: the force the extended coordinate reports at step s was
+          // exerted at step s-1 and belongs to the bin the ACTUAL variable occupied at step s-1 (zcount, zgrad)
+          if (!refused && consumer == 0) {
+            vproxy *px = new vproxy(2, false);
+            px->set_target_temperature(300.0);
+            px->set_integration_timestep(1.0);
+            double xi = 2.0;
+            px->x[1] = cvm::rvector(xi, 0, 0);
+            std::string conf = "colvar {\n name d\n width 0.25\n lowerBoundary 1.0\n upperBoundary 3.0\n extendedLagrangian on\n extendedFluctuation 0.2\n extendedTimeConstant 20.0\n"
+                               " extendedLangevinDamping 0.0\n distance {\n group1 { atomNumbers 1 }\n group2 { atomNumbers 2 }\n }\n}\nabf {\n name b\n colvars d\n fullSamples 2\n applyBias off\n}\n";
+            if (px->config(conf) == 0) {
+              std::vector<double> zc(8, 0.0), zs(8, 0.0);
+              int prev_bin = -1;
+              double prev_force = 0.0;
+              bool okrun = true;
+              for (int s = 0; s < 10 && okrun; s++) {
+                xi += 0.5 * MOVE[letters[s / 2] % 3] * ((s % 2) ? 0.3 : 1.0);
+                if (xi < 1.1) xi = 1.1;
+                if (xi > 2.9) xi = 2.9;
+                px->x[1] = cvm::rvector(xi, 0, 0);
+                if (px->step(s) != 0) { okrun = false; break; }
+                r.count("transitions");
+                // (the bias is updated before the coordinate is integrated: at step s it sees the force reported after step s-1)
+                if (s >= 1 && prev_bin >= 0 && prev_bin < 8) { zc[prev_bin] += 1.0; zs[prev_bin] += prev_force; }
+                prev_bin = (int) std::floor((xi - 1.0) / 0.25);
+                prev_force = px->cv("d")->total_force().real_value;
+              }
+              colvarbias_abf *abf = dynamic_cast<colvarbias_abf *>(px->bias("b"));
+              if (okrun && abf && abf->z_samples && abf->z_gradients) {
+                r.count("evaluations");
+                for (int b = 0; b < 8; b++) {
+                  std::vector<int> ix{b};
+                  double cnt = (double) abf->z_samples->value(ix), g = abf->z_gradients->value_output(ix, 0);
+                  double want = zc[b] > 0 ? -zs[b] / zc[b] : 0.0;
+                  if (cnt != zc[b] || !close_rel(g, want, std::max(1.0, std::fabs(want)), 1e-10, 1e-12)) {
+                    r.violation("C17:czar:z-sample-not-in-the-bin-occupied-when-the-force-was-exerted",
+                                det.substr(0, det.find(",\"word\"")) + ",\"word\":" + std::to_string(wv) + ",\"bin\":" + std::to_string(b) + ",\"zcount\":" + num(cnt) + ",\"expected_count\":" + num(zc[b]) +
+                                    ",\"zgrad\":" + num(g) + ",\"expected\":" + num(want) + "}");
+                    break;
+                  }
+                }
+              }
+            }
+            delete px;
+          }
           if (refused) continue;
           bool nonzero = false;
           for (size_t i = 20; i < data[0].size(); i++) if (data[0][i] != 0.0) nonzero = true;
